@@ -233,6 +233,79 @@ fn build(kind: &str, h: u64, m: u64, d: u64) -> Option<(String, OpFut)> {
     })
 }
 
+/// A future obtained by CALLING the API method at once (as `let f = r.ask_with_timeout(m, t);` does in user code) and polled
+/// later.  The method borrows the handle, so the handle's Arc travels with the future (dropped after it: field order).
+struct Eager {
+    f: OpFut,
+    _keep: Arc<dyn std::any::Any + Send + Sync>,
+}
+impl Future for Eager {
+    type Output = OpOut;
+    fn poll(mut self: Pin<&mut Self>, cx: &mut Context<'_>) -> Poll<OpOut> {
+        self.f.as_mut().poll(cx)
+    }
+}
+
+/// like `build`, but the API method is called here and now; only its returned future is polled later
+fn build_eager(kind: &str, h: u64, m: u64, d: u64) -> Option<(String, OpFut)> {
+    let dur = Duration::from_millis(d);
+    with_handles(|hs| {
+        let hh = hs.get(&h)?;
+        macro_rules! eager {
+            ($arc:expr, $ty:ty, $call:expr, $fin:ident) => {{
+                let keep = $arc.clone();
+                // SAFETY: the pointee lives as long as `keep`, which is stored next to the future and dropped after it
+                let rr: &'static $ty = unsafe { &*Arc::as_ptr(&keep) };
+                let f = $call(rr);
+                let f2: OpFut = Box::pin(async move { $fin(f.await) });
+                let e: OpFut = Box::pin(Eager { f: f2, _keep: keep });
+                e
+            }};
+        }
+        let odd = m % 2 == 1;
+        let (target, fut): (String, OpFut) = match hh {
+            H::S(r) => {
+                let target = name_of(r.identity().id);
+                let fut = match (kind, odd) {
+                    ("tell", true) => eager!(r, ActorRef<S>, |x: &'static ActorRef<S>| x.tell(SMsg { m }), fin_unit),
+                    ("ask", true) => eager!(r, ActorRef<S>, |x: &'static ActorRef<S>| x.ask(SMsg { m }), fin_str),
+                    ("tellT", true) => eager!(r, ActorRef<S>, |x: &'static ActorRef<S>| x.tell_with_timeout(SMsg { m }, dur), fin_unit),
+                    ("askT", true) => eager!(r, ActorRef<S>, |x: &'static ActorRef<S>| x.ask_with_timeout(SMsg { m }, dur), fin_str),
+                    ("tell", false) => eager!(r, ActorRef<S>, |x: &'static ActorRef<S>| x.tell(Msg { m }), fin_unit),
+                    ("ask", false) => eager!(r, ActorRef<S>, |x: &'static ActorRef<S>| x.ask(Msg { m }), fin_val),
+                    ("tellT", false) => eager!(r, ActorRef<S>, |x: &'static ActorRef<S>| x.tell_with_timeout(Msg { m }, dur), fin_unit),
+                    ("askT", false) => eager!(r, ActorRef<S>, |x: &'static ActorRef<S>| x.ask_with_timeout(Msg { m }, dur), fin_val),
+                    ("askJ", _) => eager!(r, ActorRef<S>, |x: &'static ActorRef<S>| x.ask_join(JMsg { m }), fin_val),
+                    _ => return None,
+                };
+                (target, fut)
+            }
+            H::Tell(r) => {
+                let target = name_of(r.as_control().identity().id);
+                type D = Box<dyn TellHandler<Msg>>;
+                let fut = match kind {
+                    "tell" => eager!(r, D, |x: &'static D| x.tell(Msg { m }), fin_unit),
+                    "tellT" => eager!(r, D, |x: &'static D| x.tell_with_timeout(Msg { m }, dur), fin_unit),
+                    _ => return None,
+                };
+                (target, fut)
+            }
+            H::Ask(r) => {
+                let target = name_of(r.as_control().identity().id);
+                type D = Box<dyn AskHandler<Msg, Val>>;
+                let fut = match kind {
+                    "ask" => eager!(r, D, |x: &'static D| x.ask(Msg { m }), fin_val),
+                    "askT" => eager!(r, D, |x: &'static D| x.ask_with_timeout(Msg { m }, dur), fin_val),
+                    _ => return None,
+                };
+                (target, fut)
+            }
+            _ => return None,
+        };
+        Some((target, fut))
+    })
+}
+
 /// Instrumented operation: logs OpStart at creation, OpPending on a pending first poll
 /// (with `tk` = a permit was taken from the pool during that poll) and OpEnd on completion.
 pub struct Instr {
@@ -241,33 +314,55 @@ pub struct Instr {
     inner: OpFut,
     first: bool,
     done: bool,
+    /// Some(d): created without being polled; OpArm is logged (and the deadline noted) at the first poll
+    lazy: Option<u64>,
 }
 
 impl Instr {
     pub fn new(own: &str, kind: &str, h: u64, d: u64) -> Option<Instr> {
+        Instr::make(own, kind, h, d, false)
+    }
+    /// the future of the operation, not yet polled
+    pub fn new_lazy(own: &str, kind: &str, h: u64, d: u64) -> Option<Instr> {
+        Instr::make(own, kind, h, d, true)
+    }
+    fn make(own: &str, kind: &str, h: u64, d: u64, lazy: bool) -> Option<Instr> {
         let needs_m = matches!(kind, "tell" | "ask" | "tellT" | "askT" | "askJ");
         // ids are allocated only if the op can be built
         let m_peek = if needs_m { NEXT_M.load(Ordering::SeqCst) } else { 0 };
-        let (a, inner) = build(kind, h, m_peek, d)?;
+        let (a, inner) = if lazy { build_eager(kind, h, m_peek, d)? } else { build(kind, h, m_peek, d)? };
         if needs_m {
             NEXT_M.fetch_add(1, Ordering::SeqCst);
         }
         let op = NEXT_OP.fetch_add(1, Ordering::SeqCst);
-        emit(json!({"e": "OpStart", "op": op, "own": own, "kind": kind, "h": h, "a": a,
-                    "m": m_peek, "d": d, "now": NOW.load(Ordering::SeqCst)}));
+        if lazy {
+            emit(json!({"e": "OpStart", "op": op, "own": own, "kind": kind, "h": h, "a": a,
+                        "m": m_peek, "d": d, "now": NOW.load(Ordering::SeqCst), "lazy": true}));
+        } else {
+            emit(json!({"e": "OpStart", "op": op, "own": own, "kind": kind, "h": h, "a": a,
+                        "m": m_peek, "d": d, "now": NOW.load(Ordering::SeqCst)}));
+        }
         if kind != "kill" {
             PENDING.lock().unwrap_or_else(|e| e.into_inner()).insert(op);
         }
-        if matches!(kind, "tellT" | "askT") {
+        if matches!(kind, "tellT" | "askT") && !lazy {
             DEADLINES.lock().unwrap_or_else(|e| e.into_inner()).insert(op, NOW.load(Ordering::SeqCst) + d);
         }
-        Some(Instr { op, a, inner, first: true, done: false })
+        let timed = matches!(kind, "tellT" | "askT");
+        Some(Instr { op, a, inner, first: true, done: false, lazy: if lazy { Some(if timed { d } else { 0 }) } else { None } })
     }
 }
 
 impl Future for Instr {
     type Output = OpOut;
     fn poll(mut self: Pin<&mut Self>, cx: &mut Context<'_>) -> Poll<OpOut> {
+        if let Some(d) = self.lazy.take() {
+            let now = NOW.load(Ordering::SeqCst);
+            emit(json!({"e": "OpArm", "op": self.op, "now": now}));
+            if d > 0 {
+                DEADLINES.lock().unwrap_or_else(|e| e.into_inner()).insert(self.op, now + d);
+            }
+        }
         let before = avail_of(&self.a);
         let prev = CUR_OP.with(|c| c.replace(self.op));
         let r = self.inner.as_mut().poll(cx);
@@ -481,9 +576,13 @@ impl Message<Msg> for S {
                     "killed": false, "n": self.nh}));
         let out = hook_gate(&self.sh, "Handler").await;
         let v = msg.m * 100 + self.nh;
-        if out == "ok" || out == "slow" {
+        if out == "ok" || out == "slow" || out == "veryslow" {
             if out == "slow" {
                 std::thread::sleep(Duration::from_millis(3));
+            }
+            if out == "veryslow" {
+                // longer than a second: durations are not only sub-second quantities
+                std::thread::sleep(Duration::from_millis(1100));
             }
             hexit(&self.sh.name, "handler", msg.m, &out, v);
             self.jl.push("h".into());
@@ -510,9 +609,13 @@ impl Message<JMsg> for S {
                     "killed": false, "n": self.nh}));
         let out = hook_gate(&self.sh, "Handler").await;
         let v = msg.m * 100 + self.nh;
-        if out == "ok" || out == "slow" {
+        if out == "ok" || out == "slow" || out == "veryslow" {
             if out == "slow" {
                 std::thread::sleep(Duration::from_millis(3));
+            }
+            if out == "veryslow" {
+                // longer than a second: durations are not only sub-second quantities
+                std::thread::sleep(Duration::from_millis(1100));
             }
             // the value the task will produce is fixed here; how it ends is decided by a later `task` command
             let (tx, rx) = tokio::sync::oneshot::channel::<String>();
